@@ -418,7 +418,9 @@ def main(argv=None):
             "samples": samples[:6] or [{"note": "no non-trivial sample recorded"}],
             "comparisons": sum(m["comparisons"] for m in sub.values()),
             "exhaustive": bool(getattr(mod, "EXHAUSTIVE", False)) and tier == "thorough",
-            "bounds": getattr(mod, "BOUNDS", ""),
+            "bounds": getattr(mod, "BOUNDS", "") + (
+                " | thorough tier: respondents up to 48, +2 valid categories, +1 item"
+                if tier == "thorough" else ""),
             "subchecks": {
                 name: {
                     "evaluations": m["evaluations"],
